@@ -229,6 +229,7 @@ struct MsgObs
   long nh = 0;
   std::string b; // JSON [1,2]
   long key = 0;  // order key (path id)
+  unsigned long long sid = 0; // session the request arrived on
   std::string json() const
   {
     return "{\"start\":" + start + ",\"h\":" + h + ",\"nh\":" + std::to_string(nh) + ",\"b\":" + b + "}";
@@ -474,19 +475,22 @@ struct Deliveries
 {
   std::mutex m;
   std::vector<MsgObs> v;
+  unsigned long long currentSid = 0; // only requests of the connection under observation count (a late worker thread of
+                                     // an earlier segmentation must not leak into this one)
   std::atomic<int> count{0};
 };
 
 static void runServerSide(const Case &c, long callTimeoutMs)
 {
   iora::core::Logger::setLevel(iora::core::Logger::Level::Fatal);
-  std::unique_ptr<Srv> srv;
+  Srv *srv = nullptr; // never destroyed: the child ends with _exit (a graceful stop sleeps, waits for the pool and
+                      // would join an I/O thread that may be the very thing that hangs)
   int port = 0;
   Deliveries &del = *new Deliveries; // never freed: a late worker thread may still touch it when the child ends
   for (int attempt = 0; attempt < 6 && !srv; ++attempt)
   {
     port = freePort();
-    auto s = std::make_unique<Srv>("127.0.0.1", port);
+    auto *s = new Srv("127.0.0.1", port);
     s->setDefaultHandler(
       [&](const HttpServer::Request &q, HttpServer::Response &r)
       {
@@ -499,6 +503,7 @@ static void runServerSide(const Case &c, long callTimeoutMs)
         long id = 0, meth = q.method == HttpMethod::GET ? 1 : q.method == HttpMethod::POST ? 2 : 9;
         if (q.path.size() > 2 && q.path[0] == '/' && q.path[1] == 'm') id = atol(q.path.c_str() + 2);
         m.key = id;
+        m.sid = (unsigned long long)q.sid;
         m.start = "[\"REQ\"," + std::to_string(10 * id + meth) + "]";
         m.h = headerFacts(c, q.headers);
         m.nh = (long)q.headers.size();
@@ -506,14 +511,14 @@ static void runServerSide(const Case &c, long callTimeoutMs)
         {
           std::lock_guard<std::mutex> lk(del.m);
           del.v.push_back(m);
+          if (m.sid == del.currentSid) del.count.fetch_add(1);
         }
-        del.count.fetch_add(1);
         r.set_content("ok", "text/plain");
       });
     try
     {
       s->start();
-      srv = std::move(s);
+      srv = s;
     }
     catch (...)
     {
@@ -525,14 +530,10 @@ static void runServerSide(const Case &c, long callTimeoutMs)
     return;
   }
   startWatchdog(callTimeoutMs);
+  bool timedOutOnce = false;
   for (auto &cuts : cutSets(c))
   {
     g_run.curSeg = cutsJson(cuts);
-    {
-      std::lock_guard<std::mutex> lk(del.m);
-      del.v.clear();
-    }
-    del.count.store(0);
     int fd = -1;
     for (int a = 0; a < 50 && fd < 0; ++a)
     {
@@ -567,6 +568,12 @@ static void runServerSide(const Case &c, long callTimeoutMs)
     }
     SessionId sid = (SessionId)strtoull(warm.lastBody.c_str(), nullptr, 10);
     buf.erase(0, warm.pos);
+    {
+      std::lock_guard<std::mutex> lk(del.m);
+      del.v.clear();
+      del.currentSid = (unsigned long long)sid;
+      del.count.store(0);
+    }
     // the stream, exactly in these segments
     bool threw = false;
     auto segs = segments(c.stream.size(), cuts);
@@ -590,15 +597,57 @@ static void runServerSide(const Case &c, long callTimeoutMs)
         }
       }
     }
-    // wait for the worker threads: bounded by what the specification says will come (never more than waitMs)
+    // mode sock: the segments went through the real I/O thread.  Is it still alive?  A second connection must get
+    // an ordinary request answered within the watchdog limit; if not, the data callback did not return.
+    bool ioHang = false;
+    if (c.mode == "sock")
+    {
+      int fd2 = connectTo(port);
+      std::string b2;
+      bool eof2 = false;
+      RespScan r2;
+      if (fd2 >= 0 && send(fd2, w, strlen(w), MSG_NOSIGNAL) > 0)
+      {
+        long long tp = nowMs();
+        while (r2.count < 1 && !eof2 && nowMs() - tp < callTimeoutMs)
+        {
+          pump(fd2, b2, 50, eof2);
+          scanResponses(b2, r2);
+        }
+      }
+      ioHang = r2.count < 1;
+      if (fd2 >= 0) closeHard(fd2);
+      if (ioHang)
+      {
+        addObs(obsJson({}, false, true, false, ""), g_run.curSeg);
+        closeHard(fd);
+        return; // nothing else can be observed on this server
+      }
+    }
+    // wait for the worker threads: bounded by what the specification says will come (never more than waitMs).
+    // Once a segmentation of this stream has used up the whole wait, the later ones wait a tenth of it: the check
+    // re-runs every rejected observation alone with the full wait before it reports anything.
     RespScan rs;
     bool wantErr = c.wantEnd == "reject";
     long long t1 = nowMs();
+    long limit = timedOutOnce ? std::max(150, c.waitMs / 10) : c.waitMs;
     for (;;)
     {
       scanResponses(buf, rs);
-      bool have = del.count.load() >= c.wantMsgs && rs.count >= c.wantMsgs && (!wantErr || eof || rs.sawError);
-      if (have || nowMs() - t1 > c.waitMs) break;
+      bool have = del.count.load() >= c.wantMsgs && (rs.count >= c.wantMsgs || eof) && (!wantErr || eof || rs.sawError);
+      if (have) break;
+      if (c.wantEnd == "msgopt" && (eof || rs.sawError))
+      {
+        // the optional message was (probably) rejected: give a delivery that is under way a moment, then stop
+        long long t2 = nowMs();
+        while (del.count.load() < c.wantMsgs && nowMs() - t2 < 40) usleep(500);
+        break;
+      }
+      if (nowMs() - t1 > limit)
+      {
+        timedOutOnce = true;
+        break;
+      }
       pump(fd, buf, 5, eof);
     }
     // settle: anything beyond what was expected (an extra delivery, a late close) gets a short chance to show up
@@ -610,15 +659,13 @@ static void runServerSide(const Case &c, long callTimeoutMs)
     std::vector<MsgObs> msgs;
     {
       std::lock_guard<std::mutex> lk(del.m);
-      msgs = del.v;
+      for (auto &m : del.v)
+        if (m.sid == (unsigned long long)sid) msgs.push_back(m);
     }
     std::stable_sort(msgs.begin(), msgs.end(), [](const MsgObs &a, const MsgObs &b) { return a.key < b.key; });
-    addObs(obsJson(msgs, eof || rs.sawError, false, threw,
-                   std::string(",\"closed\":") + (eof ? "true" : "false") + ",\"resp\":" + std::to_string(rs.count)),
-           g_run.curSeg);
+    addObs(obsJson(msgs, eof || rs.sawError, false, threw, ""), g_run.curSeg);
     closeHard(fd);
   }
-  (void)srv.release(); // the child ends with _exit: no graceful stop (it sleeps and waits for the pool)
 }
 
 // ------------------------------------------------------------------------------------------------ client side
